@@ -35,6 +35,14 @@ return False
 def query (a : Nat) (idxs : List Nat) (checkFp underlying : Bool) : Bool :=
   if allSet a idxs then (if checkFp then underlying else true) else false
 
+/-- `_wrap` when the backend gives no answer (`get_bits` disabled on the facade, backend unavailable):
+```
+values = await backend.get_bits(_cache_key, *hashes)
+if values is None: return await func(*args, **kwargs)
+```
+answers (result, was the wrapped function called); the filter is not consulted and not changed -/
+def queryOff (underlying : Bool) : Bool × Bool := (underlying, true)
+
 /-- does `_wrap` call the wrapped function? -/
 def queryCalls (a : Nat) (idxs : List Nat) (checkFp : Bool) : Bool := allSet a idxs && checkFp
 
@@ -120,5 +128,21 @@ an array — it is never deleted and no deadline is reached -/
 def aliveThrough (t : TState) : List FOp → Bool
   | [] => true
   | op :: rest => (fstep t op).view.isSome && aliveThrough (fstep t op) rest
+
+/-! ### controls of the facade around steps on the filter
+
+None of the `Cache` facade's controls has a step of its own in this model, because none may change
+what a step does to the filter:
+* `with invalidate_further():` — reacts to `get` / `get_many` / `get_match` / `incr` only; a lookup
+  (`get_bits`) or an add (`incr_bits`) inside the block is the plain `query` / `add` step;
+* `with cache.disabling(cmd):` — for `cmd = get_bits` the lookup is `queryOff` (the backend gives no
+  answer, the wrapped function is asked, the filter is neither read nor changed); for `cmd = incr_bits`
+  a `func.set` does not reach the filter (no step: the element is not added); any other command: plain steps;
+* `async with cache.transaction(mode):` — `TransactionBackend` hands `get_bits` / `incr_bits` / `exists`
+  (of a key its overlay does not hold) straight to the backend, and — repaired behaviour, proposed fix
+  D45 — `expire` of a bit-field key as well (before, it took a snapshot of the array into the overlay
+  and the commit wrote that snapshot back over the increments made meanwhile).  So `add`, `query`,
+  `expire`, `touch` inside a block are the plain steps and entering / committing is no step.
+  (`delete` of the filter's key inside a transaction is deferred to the commit: not modelled, not judged.) -/
 
 end CashewsVerif.Bloom
